@@ -33,15 +33,28 @@ ENCODES = ['pexpect.ANSI.ANSI.write_ch', 'pexpect.ANSI.ANSI.write', 'pexpect.ANS
 STUBS = ["ANSI.open (DoLog appends to a file called 'log' in the working directory): a null file",
          'NumStr: decimal text of a symbolic non-negative integer (int() and appending a digit are exact)',
          'terminal objects are constructed outside tracing so that they hold CPython\'s real incremental decoder']
-ASSUMPTIONS = ['screen 3x4; numeric parameters: unbounded non-negative integers given to the parser as their decimal text',
+ASSUMPTIONS = ['screen 3x4 (quick), also 1x1, 1x3, 2x1 and 4x5 (thorough); numeric parameters: unbounded non-negative integers given to the parser as their decimal text',
                'character dimension enumerated by class: the code only ever compares the character for equality with '
                'the characters named in the transition table and with CR/LF/BS',
                'DoLog writing to ./log succeeds (an unwritable working directory makes unknown sequences raise: '
                'environment-dependent, outside the claim)']
-OUTSIDE = ['int() of a parameter with more than 4300 digits (Python limit)', 'screens larger than 3x4']
+OUTSIDE = ['int() of a parameter with more than 4300 digits (Python limit)', 'screens larger than 4x5']
 
 ROWS, COLS = 3, 4
 CELLS = 'abcdefghijkl'
+# quick: a 3x4 screen; the thorough tier repeats P1/P2 (and the corpus obligations) on degenerate and larger screens
+SHAPES = [(3, 4), (1, 1), (1, 3), (2, 1), (4, 5)]
+
+
+def _set_shape(k):
+    """select the screen size for this run of an obligation (each analysis process works on one concrete shape)"""
+    global ROWS, COLS, CELLS
+    ROWS, COLS = SHAPES[k]
+    CELLS = 'abcdefghijklmnopqrst'[:ROWS * COLS]
+
+
+def _off_screen(cr, cc, rs, re, sr, sc):
+    return cr > ROWS or rs > ROWS or re > ROWS or sr > ROWS or cc > COLS or sc > COLS
 STATES = ['INIT', 'ESC', 'G0SCS', 'G1SCS', 'GRAPHICS_POUND', 'ELB', 'MODECRAP', 'NUMBER_1', 'MODECRAP_NUM',
           'SEMICOLON', 'NUMBER_2', 'SEMICOLON_X', 'NUMBER_X']
 # how many numeric parameters the stack holds in each state
@@ -149,13 +162,18 @@ def si_ok(t):
 
 
 _STATE = dict(cr=Int(1, ROWS), cc=Int(1, COLS), rs=Int(1, ROWS), re=Int(1, ROWS), sr=Int(1, ROWS), sc=Int(1, COLS))
+_BIG = dict(shape=Int(0, 4), cr=Int(1, 4), cc=Int(1, 5), rs=Int(1, 4), re=Int(1, 4), sr=Int(1, 4), sc=Int(1, 5))
 
 
 @obligation(params=dict(k=Int(0, 5), **_STATE),
             tags={2: 'CR', 3: 'LF', 4: 'BS', 5: 'printable', 6: 'printable at the last cell (wrap/scroll)'},
-            timeout=300, note='P1: write_ch from any valid screen state; k=4: the character given as a byte; k=5: a '
+            timeout=300, thorough=dict(params=_BIG, split=('shape',), timeout=900),
+            note='P1: write_ch from any valid screen state; k=4: the character given as a byte; k=5: a '
                               'three-byte character given to a utf-8 terminal one byte per call')
-def P1_write_ch(k, cr, cc, rs, re, sr, sc):
+def P1_write_ch(k, cr, cc, rs, re, sr, sc, shape=0):
+    _set_shape(pick(shape, 0, 4))
+    if _off_screen(cr, cc, rs, re, sr, sc):
+        return SKIP
     k = pick(k, 0, 5)
     X = 'X'
     if k == 5:
@@ -202,8 +220,12 @@ def P1_write_ch(k, cr, cc, rs, re, sr, sc):
 
 @obligation(params=dict(st=Int(0, 12), cls=Int(0, len(CLASSES) - 1), n1=Int(0), n2=Int(0), n3=Int(0), **_STATE),
             tags={2: 'back in INIT, stack clean', 3: 'inside a sequence'}, timeout=900, split=('st',),
+            thorough=dict(params=_BIG, split=('shape', 'st'), timeout=1800),
             note='P2: one parser step from every FSM state x character class, parameters unbounded integers')
-def P2_parser_step(st, cls, n1, n2, n3, cr, cc, rs, re, sr, sc):
+def P2_parser_step(st, cls, n1, n2, n3, cr, cc, rs, re, sr, sc, shape=0):
+    _set_shape(pick(shape, 0, 4))
+    if _off_screen(cr, cc, rs, re, sr, sc):
+        return SKIP
     st = pick(st, 0, 12)
     cls = pick(cls, 0, len(CLASSES) - 1)
     t = mk_term(cr, cc, rs, re, sr, sc)
@@ -261,12 +283,13 @@ def _snapshot(t):
 
 @obligation(params=dict(k=Int(0, len(CORPUS) - 1), c1=Int(0, 24), c2=Int(0, 24), asbytes=Bool()),
             tags={2: 'cut inside an escape sequence', 3: 'cut elsewhere', 4: 'bytes input, cut inside a multi-byte character'},
-            timeout=300, split=('asbytes', 'k'),
+            timeout=300, split=('asbytes', 'k'), thorough=dict(params=dict(shape=Int(0, 4)), split=('shape', 'asbytes', 'k'), timeout=600),
             note='P3: feeding the same input in up to three pieces (cuts at symbolic positions; bytes: positions in '
                  'the UTF-8 encoding) gives the same screen, cursor, region, FSM state and parameter stack; the '
                  'corpus index and the cut positions are enumerated through the solver (CrossHair realizes them at '
                  'the str/codec boundary)')
-def P3_chunking(k, c1, c2, asbytes):
+def P3_chunking(k, c1, c2, asbytes, shape=0):
+    _set_shape(pick(shape, 0, 4))
     k = pick(k, 0, len(CORPUS) - 1)
     text = CORPUS[k]
     data = text.encode('utf-8') if asbytes else text
@@ -305,13 +328,14 @@ MALFORMED = [b'ab\xe2\x8cok', b'\xe2A\x8c\x9b', b'\xc3' + E_ + b'[1;2Hq\xa9', b'
 
 @obligation(params=dict(k=Int(0, len(MALFORMED) - 1), c1=Int(0, 12), c2=Int(0, 12), unit=Bool()),
             tags={2: 'cut right after a truncated prefix', 3: 'cut elsewhere', 4: 'one byte per process() call'},
-            timeout=300, split=('k',),
+            timeout=300, split=('k',), thorough=dict(params=dict(shape=Int(0, 4)), split=('shape', 'k'), timeout=600),
             note='P3b: malformed byte input (truncated multi-byte prefixes followed by ASCII or an escape sequence, stray '
                  'continuation bytes, invalid bytes) fed to a utf-8 terminal in up to three pieces, or byte by byte '
                  'through process(): never raises, same screen / cursor / parser state / pending decoder bytes as one '
                  'write() (added after a seeded ASCII shortcut around the incremental decoder was missed: the corpus '
                  'had only well-formed text)')
-def P3b_malformed_bytes(k, c1, c2, unit):
+def P3b_malformed_bytes(k, c1, c2, unit, shape=0):
+    _set_shape(pick(shape, 0, 4))
     k = pick(k, 0, len(MALFORMED) - 1)
     data = MALFORMED[k]
     n = len(data)
@@ -348,11 +372,12 @@ def P3b_malformed_bytes(k, c1, c2, unit):
 
 @obligation(params=dict(k=Int(0, len(CORPUS) - 1), asbytes=Bool()),
             tags={2: 'text, one character per call', 3: 'bytes, one byte per call', 4: 'bytes with a multi-byte character'},
-            timeout=300, split=('asbytes',),
+            timeout=300, split=('asbytes',), thorough=dict(params=dict(shape=Int(0, 4)), split=('shape', 'asbytes'), timeout=600),
             note='P4: feeding the input one unit at a time through process() (the documented single-character entry '
                  'point; for bytes input one byte per call, so every multi-byte character is cut at every position) '
                  'never raises and gives the same screen, cursor, region and parser state as one write()')
-def P4_process_units(k, asbytes):
+def P4_process_units(k, asbytes, shape=0):
+    _set_shape(pick(shape, 0, 4))
     k = pick(k, 0, len(CORPUS) - 1)
     text = CORPUS[k]
     data = text.encode('utf-8') if asbytes else text
